@@ -124,6 +124,7 @@ func C01(c *core.Ctx) {
 	// R7: the totals are derived from one another in order (C03-R7)
 	c.Rule("C01-R7", "no totals member changes after something was computed from it (shared with C03-R7)", 5)
 	c03TotalsOrder(c, "C01-R7")
+	c01ProductPrecision(c)
 }
 
 // c01RescaleNotScaled — C01-R4: the result of a precision-lowering
@@ -844,4 +845,90 @@ func c17InvertInputs(c *core.Ctx, inv *core.FuncDecl) {
 		})
 	}
 	c.Extra("amount_recomputations_from_row_inputs", nSites)
+}
+
+// c01ProductPrecision — C01-R8: a product or quotient is not raised in
+// precision after it has been computed. Amount.Multiply / Divide round their
+// result to the receiver's precision; `x.Multiply(r).Rescale(e)` with x of
+// fewer than e decimals has already lost the decimals it then pretends to
+// have (1500 JPY × 0.0062 = 9 → 9.00 EUR instead of 9.30). In package currency
+// (conversions), a Rescale / RescaleUp of the result of Multiply / Divide /
+// Percentage.Of in the same function is accepted only where the receiver of
+// that operation was itself raised to the same target first
+// (x.RescaleUp(e).Multiply(r).Rescale(e)) or the target is the receiver's own
+// precision.
+func c01ProductPrecision(c *core.Ctx) {
+	p := c.P
+	c.Rule("C01-R8", "a product is computed at no less than the precision it is rescaled to afterwards", 1)
+	rounding := func(fn *types.Func) bool {
+		return isAmountMethod(fn, "Multiply") || isAmountMethod(fn, "Divide") || (fn != nil && fn.Pkg() != nil && fn.Pkg().Path() == core.ModPath+"/num" && (fn.Name() == "Of" || fn.Name() == "From"))
+	}
+	n := 0
+	// package currency: where an amount of one currency becomes an amount of another, whose
+	// number of decimals has nothing to do with the operand's (inside one document the working
+	// precision is kept above the currency's by the accumulation rules)
+	for _, rel := range []string{"currency"} {
+		pk := p.Pkg(rel)
+		if pk == nil {
+			continue
+		}
+		for _, fd := range p.Funcs(pk) {
+			if p.IsTestFile(fd.Decl.Pos()) || fd.Decl.Body == nil {
+				continue
+			}
+			info := fd.Pkg.TypesInfo
+			ld := core.NewLocalDefs(info, fd.Decl.Body)
+			k := 0
+			ast.Inspect(fd.Decl.Body, func(m ast.Node) bool {
+				call, ok := m.(*ast.CallExpr)
+				if !ok || len(call.Args) != 1 {
+					return true
+				}
+				fn := core.Callee(info, call)
+				if !isAmountMethod(fn, "Rescale") && !isAmountMethod(fn, "RescaleUp") {
+					return true
+				}
+				target := types.ExprString(ast.Unparen(call.Args[0]))
+				for _, src := range valueSources(info, ld, core.RecvExpr(call), 0) {
+					prod, ok := ast.Unparen(src).(*ast.CallExpr)
+					if !ok || !rounding(core.Callee(info, prod)) {
+						continue
+					}
+					n++
+					k++
+					// the operand whose precision the product takes: the receiver of Multiply / Divide,
+					// the argument of Percentage.Of / From
+					opnd := core.RecvExpr(prod)
+					if cf := core.Callee(info, prod); cf.Name() == "Of" || cf.Name() == "From" {
+						if len(prod.Args) == 1 {
+							opnd = prod.Args[0]
+						}
+					}
+					raised := false
+					for _, os := range valueSources(info, ld, opnd, 0) {
+						oc, ok := ast.Unparen(os).(*ast.CallExpr)
+						if !ok || len(oc.Args) != 1 {
+							continue
+						}
+						ofn := core.Callee(info, oc)
+						if (isAmountMethod(ofn, "RescaleUp") || isAmountMethod(ofn, "Rescale")) && types.ExprString(ast.Unparen(oc.Args[0])) == target {
+							raised = true
+						}
+					}
+					// rescaling to the operand's own precision changes nothing
+					if se := ast.Unparen(call.Args[0]); !raised {
+						if c2, ok := se.(*ast.CallExpr); ok {
+							if f2 := core.Callee(info, c2); f2 != nil && f2.Name() == "Exp" && types.ExprString(ast.Unparen(core.RecvExpr(c2))) == types.ExprString(ast.Unparen(opnd)) {
+								raised = true
+							}
+						}
+					}
+					c.Ob("C01-R8", fmt.Sprintf("%s#%s%d", fd.Name(), fn.Name(), k), call.Pos(), raised,
+						fmt.Sprintf("%s rescales %s to %s after the operation: %s rounds its result to the precision of %s, which has not been raised to %s first — with an operand of fewer decimals the product has already lost the decimals the result then shows (1500 JPY × 0.0062 gives 9.00 EUR, not 9.30)", fd.Name(), types.ExprString(prod), target, core.Callee(info, prod).Name(), types.ExprString(opnd), target))
+				}
+				return true
+			})
+		}
+	}
+	c.Extra("C01-R8_rescaled_products", n)
 }
